@@ -359,20 +359,20 @@ theorem stepOnce_hdr (sd : ByteArray) (s : State) (h : s.step = .blockHeader) :
 open Compress.Proofs.FlateRefine (toBytes_take_length) in
 /-- `readRawData`, entered with `blkLen = n` bytes of the meta-block still to copy, against
     `copyBytes n` followed by `K`. -/
-theorem raw_action (sd : ByteArray) (ws : Nat) (ds : Dists) (B : Nat) (K : Dec Unit) (L : Nat)
-    (HK : ∀ s' st' del', Rel ws s' st' ds del' → s'.step = .blockHeader → s'.last = false →
+theorem raw_action (sd : ByteArray) (ws : Nat) (ds : Dists) (B : Nat) (K : Dec Unit) (L : Nat) (P : St → Prop)
+    (HK : ∀ s' st' del', P st' → Rel ws s' st' ds del' → s'.step = .blockHeader → s'.last = false →
       st'.bits.length ≤ L → Outcome sd s' del' B (K st')) :
     ∀ (m : Nat) (n : Nat) (s1 : State) (st : St) (del : List UInt8),
       2 * n + (if s1.dict.availSize = 0 then 1 else 0) ≤ m →
       Rel ws s1 st ds del → s1.blkLen = (n : Int) → 1 ≤ n → s1.last = false → st.used % 8 = 0 →
-      st.bits.length ≤ L →
+      st.bits.length ≤ L → (∀ st', copyBytes n st = (.ok (), st') → P st') →
       Progress s1 (fin (readRawData s1)) ∧
       Outcome sd (fin (readRawData s1)) del B ((copyBytes n >>= fun _ => K) st) := by
   intro m
   induction m with
   | zero => intro n s1 st del hm _ _ hn; omega
   | succ m ih =>
-    intro n s1 st del hm hR hbl hn hlast hu hL
+    intro n s1 st del hm hR hbl hn hlast hu hL hP
     have hrd := hR.rd
     have hlen8 : st.bits.length % 8 = 0 := by have := hR.aligned; omega
     unfold readRawData
@@ -486,6 +486,9 @@ theorem raw_action (sd : ByteArray) (ws : Nat) (ds : Dists) (B : Nat) (K : Dec U
           have hih := ih (n - k) _ (stCopy st k) (del ++ d1.readFlush.2) hmeasure hRel
             (by simp only [drain, deliver]; omega) hnk (by simpa [drain, deliver] using hlast)
             (by simp only [stCopy]; omega) (by simp only [stCopy, List.length_drop]; omega)
+            (fun st' h' => hP st' (by
+              have : n = k + (n - k) := by omega
+              rw [this, copyBytes_take k (n - k) st hk8]; exact h'))
           have hstep := stepOnce_raw sd _ (show (drain { s1 with
               dict := d1.readFlush.1, toRead := d1.readFlush.2, step := Step.rawData,
               blkLen := (n : Int) - (k : Int),
@@ -506,7 +509,7 @@ theorem raw_action (sd : ByteArray) (ws : Nat) (ds : Dists) (B : Nat) (K : Dec U
         · rw [hsplit, Nat.sub_self]
           have hc0 : (copyBytes 0 >>= fun _ => K) (stCopy st k) = K (stCopy st k) := rfl
           rw [hc0]
-          refine HK _ (stCopy st k) del ?_ rfl (by simpa using hlast)
+          refine HK _ (stCopy st k) del (hP _ (copyBytes_ok k st hk8)) ?_ rfl (by simpa using hlast)
             (by simp only [stCopy, List.length_drop]; omega)
           constructor
           · simpa using hR.toRead
@@ -530,8 +533,8 @@ theorem raw_action (sd : ByteArray) (ws : Nat) (ds : Dists) (B : Nat) (K : Dec U
 /-! ### one meta-block header step, and the induction over the meta-blocks -/
 
 /-- the boundary form of the induction hypothesis. -/
-def BlocksOK (sd : ByteArray) (ws B fuel : Nat) : Prop :=
-  ∀ (s : State) (st : St) (ds : Dists) (del : List UInt8), Rel ws s st ds del → s.step = .blockHeader →
+def BlocksOK (sd : ByteArray) (ws B : Nat) (I : St → Prop) (fuel : Nat) : Prop :=
+  ∀ (s : State) (st : St) (ds : Dists) (del : List UInt8), I st → Rel ws s st ds del → s.step = .blockHeader →
     s.last = false → st.bits.length < fuel → st.bits.length ≤ B →
     Outcome sd s del B (readMetaBlocks sd ws fuel ds st)
 
@@ -581,8 +584,10 @@ theorem Rel.congr {ws : Nat} {s s' : State} {st st' : St} {ds : Dists} {del : Li
   · exact h9
   · rw [h10]; exact h.mtf
 
-theorem hdr_action (sd : ByteArray) (hC : CompressedSim sd) (ws B fuel : Nat) (IH : BlocksOK sd ws B fuel)
-    (s1 : State) (st : St) (ds : Dists) (del : List UInt8) (hR : Rel ws s1 st ds del) (hl : s1.last = false)
+theorem hdr_action (sd : ByteArray) (ws B fuel : Nat) (I G : St → Prop) (hReach : Reach sd ws I G)
+    (hC : CompressedSimOn sd G) (IH : BlocksOK sd ws B I fuel)
+    (s1 : State) (st : St) (ds : Dists) (del : List UInt8) (hI : I st) (hR : Rel ws s1 st ds del)
+    (hl : s1.last = false)
     (hf : st.bits.length ≤ fuel) (hB : st.bits.length ≤ B) :
     Progress s1 (fin (readBlockHeader s1)) ∧
     Outcome sd (fin (readBlockHeader s1)) del B (readMetaBlocks sd ws (fuel+1) ds st) := by
@@ -666,7 +671,13 @@ theorem hdr_action (sd : ByteArray) (hC : CompressedSim sd) (ws B fuel : Nat) (I
                 rwa [alignToByte_aligned _ (by simp only [stAt_used]; omega)] at this
               | false =>
                 simp only [Bool.false_eq_true, if_false]
-                exact IH _ _ ds del hRel rfl rfl (by omega) (by omega)
+                have hI' : I (stAt st2 (8 * skip)) := by
+                  refine hReach.mdata st (stAt st k) skip _ hI hy ?_
+                  rw [Dec_bind_apply, (alignToByte_eq (stAt st k)).1 hpadle]
+                  have hp'' : ¬ (Bits.toNat ((stAt st k).bits.take ((8 - (stAt st k).used % 8) % 8)) ≠ 0) := by omega
+                  rw [if_neg hp'', hst2]
+                  exact skipBytes_ok skip st2 h8
+                exact IH _ _ ds del hI' hRel rfl rfl (by omega) (by omega)
     | data last mlen unc =>
       cases hd' with
       | lastEmpty => exact absurd hrel (by simp [HdrRel])
@@ -695,9 +706,15 @@ theorem hdr_action (sd : ByteArray) (hC : CompressedSim sd) (ws B fuel : Nat) (I
             have hout2 : st2.out = st.out := by rw [← hst2]; rfl
             have hRel : Rel ws { s1 with rd := brOf st2, last := false, blkLen := (mlen : Int) } st2 ds del :=
               hR.congr rfl rfl rfl rfl rfl rfl hout2 ⟨rfl, rfl, rfl, rfl⟩ hal2 rfl
-            have hra := raw_action sd ws ds B (readMetaBlocks sd ws fuel ds) st2.bits.length
-              (fun s' st' del' hR' hs' hl' hL' => IH s' st' ds del' hR' hs' hl' (by omega) (by omega))
+            have hra := raw_action sd ws ds B (readMetaBlocks sd ws fuel ds) st2.bits.length I
+              (fun s' st' del' hI' hR' hs' hl' hL' => IH s' st' ds del' hI' hR' hs' hl' (by omega) (by omega))
               _ mlen _ st2 del (Nat.le_refl _) hRel rfl hm1 rfl hu2 (Nat.le_refl _)
+              (fun st' hcb => by
+                refine hReach.raw st (stAt st k) mlen st' hI hy ?_
+                rw [Dec_bind_apply, (alignToByte_eq (stAt st k)).1 hpadle]
+                have hp'' : ¬ (Bits.toNat ((stAt st k).bits.take ((8 - (stAt st k).used % 8) % 8)) ≠ 0) := by omega
+                rw [if_neg hp'', hst2]
+                exact hcb)
             have h2 := hra.2
             rw [Dec_bind_apply] at h2
             refine ⟨hra.1.of_le ?_, h2⟩
@@ -707,7 +724,7 @@ theorem hdr_action (sd : ByteArray) (hC : CompressedSim sd) (ws B fuel : Nat) (I
           have hRel : Rel ws { s1 with rd := brOf (stAt st k), last := last, blkLen := (mlen : Int) }
               (stAt st k) ds del :=
             hR.congr rfl rfl rfl rfl rfl rfl rfl ⟨rfl, rfl, rfl, rfl⟩ hal1 rfl
-          obtain ⟨hc1, hc2⟩ := hC ws _ (stAt st k) ds del mlen hRel rfl hm1 hm2
+          obtain ⟨hc1, hc2⟩ := hC ws _ (stAt st k) ds del mlen (hReach.comp st _ last mlen hI hy) hRel rfl hm1 hm2
           constructor
           · constructor
             · intro he
@@ -734,15 +751,17 @@ theorem hdr_action (sd : ByteArray) (hC : CompressedSim sd) (ws B fuel : Nat) (I
                 exact last_outcome sd s' st' ws ds' (del ++ X) B hRel' hstep' (by rw [hlast'])
               | false =>
                 simp only [Bool.false_eq_true, if_false]
-                exact IH s' st' ds' (del ++ X) hRel' hstep' (by rw [hlast']) (by omega) (by omega)
+                exact IH s' st' ds' (del ++ X) (hReach.next st _ mlen ds ds' st' hI hy hsc) hRel' hstep'
+                  (by rw [hlast']) (by omega) (by omega)
 
-theorem blocks_sim (sd : ByteArray) (hC : CompressedSim sd) (ws B : Nat) : ∀ fuel, BlocksOK sd ws B fuel := by
+theorem blocks_sim (sd : ByteArray) (ws B : Nat) (I G : St → Prop) (hReach : Reach sd ws I G)
+    (hC : CompressedSimOn sd G) : ∀ fuel, BlocksOK sd ws B I fuel := by
   intro fuel
   induction fuel with
-  | zero => intro s st ds del _ _ _ h; omega
+  | zero => intro s st ds del _ _ _ _ h; omega
   | succ fuel ih =>
-    intro s st ds del hR hs hl hf hB
-    obtain ⟨hp, ho⟩ := hdr_action sd hC ws B fuel ih s st ds del hR hl (by omega) hB
+    intro s st ds del hI hR hs hl hf hB
+    obtain ⟨hp, ho⟩ := hdr_action sd ws B fuel I G hReach hC ih s st ds del hI hR hl (by omega) hB
     rw [← stepOnce_hdr sd s hs] at hp ho
     exact Outcome.step hR.toRead hR.err hp ho
 
@@ -816,10 +835,12 @@ theorem mtfOK_init : MtfOK ({} : Mtf) := by
 attribute [local irreducible] Impl.decWinBits in
 /-- **Stream level.** Given the simulation of compressed meta-blocks, the reader model started on
     `bytes` ends like the specification's `readStream`. -/
-theorem stream_sim (sd : ByteArray) (hW : WinBitsSim) (hC : CompressedSim sd) (bytes : List UInt8) :
+theorem stream_sim_on (sd : ByteArray) (hW : WinBitsSim) (I G : St → Prop)
+    (hReach : ∀ ws, Reach sd ws I G) (hC : CompressedSimOn sd G) (bytes : List UInt8)
+    (hI0 : ∀ w st1, readWindowBits { bits := Bits.ofBytes bytes, used := 0, out := #[] } = (.ok w, st1) → I st1) :
     Outcome sd (init bytes) [] (8 * bytes.length)
       (readStream sd { bits := Bits.ofBytes bytes, used := 0, out := #[] }) := by
-  generalize hst0 : ({ bits := Bits.ofBytes bytes, used := 0, out := #[] } : St) = st0
+  generalize hst0 : ({ bits := Bits.ofBytes bytes, used := 0, out := #[] } : St) = st0 at hI0 ⊢
   have hrd0 : (init bytes).rd = brOf st0 := by rw [← hst0]; rfl
   have hlen0 : st0.bits.length = 8 * bytes.length := by rw [← hst0]; exact length_ofBytes bytes
   have hused0 : st0.used = 0 := by rw [← hst0]
@@ -874,11 +895,69 @@ theorem stream_sim (sd : ByteArray) (hW : WinBitsSim) (hC : CompressedSim sd) (b
         · exact ⟨by decide, by decide, by decide, by decide⟩
         · simp only [stAt_used, stAt_bits, List.length_drop]; omega
         · exact mtfOK_init
-      have hact := hdr_action sd hC (2 ^ w - 16) (8 * bytes.length) (stAt st0 k).bits.length
-        (blocks_sim sd hC _ _ _) _ (stAt st0 k) {} [] hRel rfl (Nat.le_refl _)
+      have hact := hdr_action sd (2 ^ w - 16) (8 * bytes.length) (stAt st0 k).bits.length I G (hReach _) hC
+        (blocks_sim sd _ _ I G (hReach _) hC _) _ (stAt st0 k) {} [] (hI0 w _ hy) hRel rfl (Nat.le_refl _)
         (by simp only [stAt_bits, List.length_drop]; omega)
       refine ⟨hact.1.of_le ?_, hact.2⟩
       simp only [brOf_bits, stAt_bits, List.length_drop, hrd0]; omega
   exact Outcome.step rfl rfl (by rw [hstep]; exact main.1) (by rw [hstep]; exact main.2)
+
+attribute [local irreducible] Impl.decWinBits in
+/-- the stream level with the simulation of compressed meta-blocks available everywhere. -/
+theorem stream_sim (sd : ByteArray) (hW : WinBitsSim) (hC : CompressedSim sd) (bytes : List UInt8) :
+    Outcome sd (init bytes) [] (8 * bytes.length)
+      (readStream sd { bits := Bits.ofBytes bytes, used := 0, out := #[] }) :=
+  stream_sim_on sd hW (fun _ => True) (fun _ => True) (fun ws => Reach.trivial sd ws) (hC.on _) bytes
+    (fun _ _ _ => True.intro)
+
+/-! ### layer (c): streams without compressed meta-blocks -/
+
+/-- the specification's walk over the meta-block headers from `st` meets only metadata and
+    uncompressed meta-blocks (or the end of the stream, or an invalid header). -/
+inductive RawOnly : St → Prop
+  | bad {st st1 : St} {e : Err} : specHdr st = (.error e, st1) → RawOnly st
+  | lastEmpty {st st1 : St} : specHdr st = (.ok .lastEmpty, st1) → RawOnly st
+  | metadata {st st1 : St} {last : Bool} {skip : Nat} : specHdr st = (.ok (.metadata last skip), st1) →
+      (last = false → ∀ st', (alignToByte >>= fun _ => skipBytes skip) st1 = (.ok (), st') → RawOnly st') →
+      RawOnly st
+  | raw {st st1 : St} {last : Bool} {mlen : Nat} : specHdr st = (.ok (.data last mlen true), st1) →
+      (∀ st', (alignToByte >>= fun _ => copyBytes mlen) st1 = (.ok (), st') → RawOnly st') → RawOnly st
+
+theorem reach_rawOnly (sd : ByteArray) (ws : Nat) : Reach sd ws RawOnly (fun _ => False) := by
+  refine ⟨?_, ?_, ?_, ?_⟩
+  · intro st st1 last mlen hI h
+    cases hI with
+    | bad h' => rw [h] at h'; cases h'
+    | lastEmpty h' => rw [h] at h'; cases h'
+    | metadata h' _ => rw [h] at h'; cases h'
+    | raw h' _ => rw [h] at h'; cases h'
+  · intro st st1 skip st' hI h hrun
+    cases hI with
+    | bad h' => rw [h] at h'; cases h'
+    | lastEmpty h' => rw [h] at h'; cases h'
+    | metadata h' hn => rw [h] at h'; cases h'; exact hn rfl st' hrun
+    | raw h' _ => rw [h] at h'; cases h'
+  · intro st st1 mlen st' hI h hrun
+    cases hI with
+    | bad h' => rw [h] at h'; cases h'
+    | lastEmpty h' => rw [h] at h'; cases h'
+    | metadata h' _ => rw [h] at h'; cases h'
+    | raw h' hn => rw [h] at h'; cases h'; exact hn st' hrun
+  · intro st st1 mlen ds ds' st' hI h _
+    cases hI with
+    | bad h' => rw [h] at h'; cases h'
+    | lastEmpty h' => rw [h] at h'; cases h'
+    | metadata h' _ => rw [h] at h'; cases h'
+    | raw h' _ => rw [h] at h'; cases h'
+
+attribute [local irreducible] Impl.decWinBits in
+/-- **Layer (c), end to end.** On a stream whose meta-blocks are all metadata or uncompressed ones the
+    reader model ends like the specification — no hypothesis about compressed meta-blocks. -/
+theorem stream_sim_uncompressed (sd : ByteArray) (hW : WinBitsSim) (bytes : List UInt8)
+    (hU : ∀ w st1, readWindowBits { bits := Bits.ofBytes bytes, used := 0, out := #[] } = (.ok w, st1) → RawOnly st1) :
+    Outcome sd (init bytes) [] (8 * bytes.length)
+      (readStream sd { bits := Bits.ofBytes bytes, used := 0, out := #[] }) :=
+  stream_sim_on sd hW RawOnly (fun _ => False) (fun ws => reach_rawOnly sd ws)
+    (fun _ _ _ _ _ _ hG => hG.elim) bytes hU
 
 end Compress.Proofs.BrImpl
